@@ -426,7 +426,16 @@ def r03_9(chk, tier):
                 tn = fn['_types'][d['t'] - 1]
                 if ('string_view' in tn or 'span<' in tn) and not tn.rstrip().endswith('&') and any(A.callee_name(c) == 'current' for c in A.calls_in(d['init'])):
                     views.append(d)
-        if not views: continue
+        # ... or a view-typed local that is *assigned* from cursor.current() later on (`key = cursor.current().get<string_view>(ec)`)
+        assigned = []
+        vlocals = {d['id']: d for d in A.walk_no_lambda(fn['body']) if d.get('k') == 'VarDecl' and d.get('t') and
+                   ('string_view' in fn['_types'][d['t'] - 1] or 'span<' in fn['_types'][d['t'] - 1]) and not fn['_types'][d['t'] - 1].rstrip().endswith('&')}
+        for x in A.walk_no_lambda(fn['body']):
+            if x.get('k') == 'CXXOperatorCallExpr' and x.get('oop') == '=' and len(x.get('args') or []) == 2:
+                t = A.strip(x['args'][0], casts=True)
+                if t is not None and t.get('k') == 'DeclRefExpr' and t.get('id') in vlocals and any(A.callee_name(c) == 'current' for c in A.calls_in(x['args'][1])):
+                    assigned.append((vlocals[t['id']], x))
+        if not views and not assigned: continue
         key = (fn['file'], fn['l'])
         if key in seen: continue
         seen.add(key)
@@ -434,10 +443,10 @@ def r03_9(chk, tier):
         g = C.CFG(fn['body'])
         adv = [nd for nd in g.rpo if nd.kind in ('stmt', 'cond', 'return') and isinstance(nd.ast, dict) and
                any(c.get('k') == 'CXXMemberCallExpr' and A.callee_name(c) in ADV and 'cursor' in (c.get('cq') or '') for c in A.calls_in(nd.ast))]
-        for d in views:
+        for d, defx in [(d, d) for d in views] + assigned:
             n += 1
-            site = U.site(fn, 'view %s' % d.get('n'))
-            dn = g.node_of(d)
+            site = U.site(fn, 'view %s%s' % (d.get('n'), '' if defx is d else ' (assigned@%d)' % (defx.get('l', 0) - fn['l'])))
+            dn = g.node_of(defx)
             bad = None
             if dn is not None:
                 for a in adv:
@@ -586,6 +595,41 @@ def r03_13(chk, facts):
                              'left (inside an escape), so the first characters of this string are read as the rest of that escape' % (fn['n'], call.get('l')), None, fn['q'])
     chk.require(n >= 4, 'R03.13: only %d string start sites found in basic_json_parser' % n)
 
+def r03_14(chk, tier):
+    """A cursor that is given a new source forgets the input position of the old one, in every reset overload."""
+    chk.rule('R03.14', 'reset overloads of the cursors agree: the overloads of `reset` that receive a new source all call the same re-initialisation '
+                       'of the parser (on this tree `parser_.reinitialize()`, which also drops the pointers into the old source\'s chunk), '
+                       'the overloads without a source all call the same one; a sibling that keeps the old input pointers parses freed memory', floor=4)
+    n = 0
+    for unit in ('core', 'cbor', 'msgpack', 'ubjson', 'bson', 'csv'):
+        facts = F.load([unit], tier)
+        if unit not in chk.units: chk.units.append(unit)
+        classes = {}
+        for f in sorted(facts.functions, key=lambda f: bool(f.get('dep'))):
+            if f['n'] != 'reset' or f.get('body') is None or 'cursor' not in A.strip_targs(f.get('cls') or '').split('::')[-1]: continue
+            classes.setdefault(A.strip_targs(f['cls']), {}).setdefault((f['file'], f['l']), f)
+        for cls, fns in sorted(classes.items()):
+            groups = {}
+            for f in fns.values():
+                with_source = any('error_code' not in F.tname(f, p_['t']) for p_ in f['params'])
+                calls = sorted(set(A.callee_name(c) for c in A.calls_in(f['body'], no_lambda=True)
+                                   if A.callee_name(c) in ('reset', 'reinitialize', 'restart') and 'parser_' in A.text(c)))
+                groups.setdefault(with_source, []).append((f, tuple(calls)))
+            for ws, members in sorted(groups.items()):
+                if len(members) < 2: continue
+                counts = {}
+                for f, cs in members: counts[cs] = counts.get(cs, 0) + 1
+                ref = max(counts, key=lambda k_: counts[k_])
+                for f, cs in members:
+                    n += 1
+                    chk.analysed(f)
+                    site = U.site(f, 'reset(%s) parser call' % ('source' if ws else 'no source'))
+                    if cs == ref: chk.ok('R03.14', site, {'class': cls.split('::')[-1], 'calls': list(cs)})
+                    else:
+                        chk.fail('R03.14', site, f['file'], f['l'], '%s::reset at line %s re-initialises the parser with %s, its sibling overloads (%s a new source) with %s' % (
+                            cls.split('::')[-1], f['l'], list(cs) or 'nothing', 'with' if ws else 'without', list(ref)), None, f['q'])
+    chk.require(n >= 4, 'R03.14: only %d reset overloads with siblings found in the cursors' % n)
+
 def run(chk, tier, only_rule=None):
     chk.explanation = EXPLANATION
     chk.not_decided = NOT_DECIDED
@@ -601,6 +645,7 @@ def run(chk, tier, only_rule=None):
     r03_11(chk, facts)
     r03_12(chk, facts)
     r03_13(chk, facts)
+    r03_14(chk, tier)
     from . import c02
     c02.r02_8(chk, facts)      # the first-chunk examination must not recur at later chunk boundaries
     from . import c05
